@@ -61,6 +61,8 @@ def tasks_c01(tier, seed):
         ts += explore("Q9", "w1-in4-default-direct", 2, shards=2, timeout="60s") + explore("Q9", CFG_DEFAULT, 1, shards=4, timeout="60s")
         # two patterns sharing one ${tag} group template with the tag at different positions
         ts += explore("Q11", "w2-in4-tagged-direct", 1, timeout="60s") + explore("Q11", alt, 2, timeout="60s")
+        # 300 callbacks queued on one group, another group waiting, a further submission from inside the 130th
+        ts += explore("Q12", "w1-in4-default-direct", 1, timeout="60s") + explore("Q12", CFG_DEFAULT, 0, timeout="60s")
         # a chain of 700 callbacks each submitting the next one to its own group (the group is never idle)
         ts += explore("Q10", "w1-in4-default-direct", 1, timeout="60s") + explore("Q10", CFG_DEFAULT, 0, timeout="60s")
         # a second Serve as soon as Shutdown has returned, with a callback of the first epoch still to finish
@@ -118,7 +120,8 @@ def tasks_c03(tier, seed):
 
 
 def tasks_c04(tier, seed):
-    ts = seq("c04", tier, shards=16)
+    # c07: every reply method x value shape (among them a marshaler that panics in the middle of the reply)
+    ts = seq("c04", tier, shards=16) + seq("c07", tier, shards=4)
     # requests to a restarted service (Shutdown dropped queued work of the same resource)
     if tier == "quick":
         ts += explore("S8r", "w1-in4-default-direct", 2, shards=2, timeout="100s")
@@ -148,6 +151,8 @@ def tasks_c07(tier, seed):
 
 def tasks_c08(tier, seed):
     ts = seq("c08", tier, shards=16)
+    # a long backlog on one group: its messages stay in submission order
+    ts += explore("Q12", "w1-in4-default-direct", 1, timeout="60s") + explore("Q9", "w1-in4-default-direct", 2, shards=2, timeout="60s")
     # the messages of the second epoch's callbacks must appear on the second epoch's connection
     if tier == "quick":
         ts += explore("S13", "w1-in4-default-direct", 2, timeout="60s") + explore("S13", CFG_DEFAULT, 1, shards=2, timeout="60s")
@@ -169,7 +174,7 @@ def tasks_c18(tier, seed):
 
 
 QE_SCENS = ["QE0", "QE1-model", "QE1-events", "QE1-error", "QE1-notfound", "QE1-panic", "QE1-panicnil", "QE1-nothing", "QE1-timeout", "QE1-twice",
-            "QE2", "QEempty", "QEnopayload", "QEfail", "QEconc", "QEconcNil", "QEchain", "QEshutdown", "QEshutdownBusy"]
+            "QE2", "QEempty", "QEnopayload", "QEnopayloadQ", "QE1Q", "QEfail", "QEconc", "QEconcNil", "QEchain", "QEshutdown", "QEshutdownBusy"]
 
 
 def tasks_c15(tier, seed):
@@ -183,7 +188,7 @@ def tasks_c15(tier, seed):
         ts = explore("QErestart", w1, 1, shards=16, timeout="5m") + explore("QErestart", CFG_DEFAULT, 0, shards=4, timeout="5m")
         ts += explore("QEduration", w1, 2, shards=4, timeout="5m") + explore("QEduration", CFG_DEFAULT, 1, shards=4, timeout="5m")
     for s in QE_SCENS:
-        big = s in ("QE2", "QEconc", "QEshutdownBusy")
+        big = s in ("QE2", "QEconc", "QEshutdownBusy", "QEnopayloadQ")
         if tier == "quick":
             ts += explore(s, w1, 2, shards=6 if big else 1, timeout="100s")
             if not big:
@@ -287,6 +292,7 @@ def tasks_c16(tier, seed):
     # life-cycle races: double Shutdown, double Serve, Shutdown during the start-up of Serve
     ts += explore("S9", w1, b, race=True, shards=2, timeout=to) + explore("S10", CFG_DEFAULT, 2, race=True, timeout=to) + explore("S11", CFG_DEFAULT, 2, race=True, timeout=to)
     ts += explore("S12", w1, b, race=True, shards=2, timeout=to)
+    ts += explore("S13b", w1, b + 1, race=True, shards=2, timeout=to)
     ts += explore("T1", CFG_DEFAULT, b, race=True, shards=2, timeout=to) + explore("Q8", CFG_DEFAULT, b, race=True, shards=2, timeout=to)
     ts += STORE_RACE_TASKS(tier)
     ts += SH_TASKS(tier, race=True)
